@@ -5,7 +5,7 @@ ID = 'C10'
 ENGINE = 'detsched'
 TECHNIQUE = 'runtime monitoring under a deterministic cooperative scheduler with a virtual clock: the linearised queue-operation log is stamped with virtual time and compared with the ideal posting instants'
 RULE = ('a started ActiveObject with 1-4 concurrent timed sources (post_fifo/post_lifo with period in {0.01,0.05,0.1,1,2.5} and, for finite sources, also 0, times 0..6 (a few sources: 257-300 postings, period 0 or 1 ms), deferred '
-        'True/False/default, started at different virtual instants), real timer threads run by detsched, time.sleep replaced by a virtual '
+        'True/False/default, started at different virtual instants; in a fifth of the runs armed BEFORE start_at, the object being started up to 1.3 s later), real timer threads run by detsched, time.sleep replaced by a virtual '
         'clock. Instantaneous-computation runs (clock advances only when nothing is runnable): every posting instant must equal t0 + k*period '
         '(k from 1 if deferred else 0), the count at a horizon not on a period boundary must equal min(times, instants before the horizon) '
         '(times=0: all instants), fifo sources must append, lifo sources appendleft. Early-advance runs (clock may jump while threads are '
@@ -13,7 +13,7 @@ RULE = ('a started ActiveObject with 1-4 concurrent timed sources (post_fifo/pos
         'distinct_nontrivial = distinct (time model, sorted source parameters) tuples')
 CASES = {'quick': 1500, 'thorough': 60000}
 BUDGET = {'quick': 150, 'thorough': 300}
-REQUIRE = {'runs': 600, 'postings_checked': 3000, 'sources_nondeferred': 200, 'sources_infinite': 100, 'sources_lifo': 200, 'early_advance_runs': 100, 'sources_with_zero_period': 100, 'sources_with_large_repeat_count': 15}
+REQUIRE = {'runs': 600, 'postings_checked': 3000, 'sources_nondeferred': 200, 'sources_infinite': 100, 'sources_lifo': 200, 'early_advance_runs': 100, 'sources_with_zero_period': 100, 'sources_with_large_repeat_count': 15, 'runs_with_sources_armed_before_start_at': 100}
 ASSUME = ['no cancellation or stop in these runs (C11, C12)', 'virtual time: wall-clock drift of real sleeps is outside the statement']
 ANNOUNCE_CASES = True
 
@@ -30,12 +30,20 @@ def run_case(ctx, n):
   try:
     ao = aosim.make_ao(run.hist, instrumented=rng.random() < 0.5)
     st = timersim.make_state(run, [], spied=rng.random() < 0.5)
+    armed_before_start = (not early) and rng.random() < 0.2
     try:
-      ao.start_at(st)
+      if not armed_before_start:
+        ao.start_at(st)
       for src in sources:
         if src['start_delay']:
           ds.STime.sleep(src['start_delay'])
         timersim.start_source(ao, run, src)
+      if armed_before_start:
+        # the timed sources were armed BEFORE start_at (posting before the start is supported: the postings queue up) and the
+        # object is started some time later, after the first postings of some of them are due
+        ctx.count('runs_with_sources_armed_before_start_at')
+        ds.STime.sleep(rng.choice([0.0, 0.03, 0.12, 1.3]))
+        ao.start_at(st)
       if early:
         s.quiesce()
         horizon = 1e18
